@@ -140,6 +140,7 @@ def rSaIn (sas : List Sa) (s : Sa) : List String :=
 def rNl : NlOp → List String
   | .newSa d p s => ["N", hexOut d, toString p, hexOut s]
   | .delSa d p s => ["D", hexOut d, toString p, hexOut s]
+  | .refusedNewSa d p s => ["N", hexOut d, toString p, hexOut s]
   | .flushSa => ["FS"]
   | .flushPolicy => ["FP"]
   | .newPolicy i d => ["P", toString i, toString d]
